@@ -1,0 +1,5 @@
+//go:build !verif
+
+package coalesce
+
+func verifAt(string, interface{}) {}
